@@ -491,7 +491,9 @@ impl IntoLower for ast::PropertyOp {
     type Output = ir::Expression;
 
     fn into_lower(&self, ctx: &Context) -> Result<Self::Output, Error> {
-        let object = self.operand.into_lower(ctx)?;
+        // only a datum has properties: an input used as the operand stands for its
+        // datum, whatever the context the whole expression appears in
+        let object = self.operand.into_lower(&ctx.enter_datum_expr())?;
 
         let ty = self
             .operand
